@@ -206,6 +206,24 @@ theorem absRun_adjChain (id : Cid) (progs : List (Plugin × List AOp)) : ∀ (ow
     · exact hown c it h y (List.mem_cons_of_mem _ hy) hin
     · exact hdisj it h it (List.mem_flatMap.2 ⟨y, hy, hin⟩) rfl
 
+/-- an update naming pairwise distinct, untaken items takes them all -/
+theorem claimedPrefix_self (c : Cid) (its : List Item) : ∀ T, its.Nodup → (∀ it ∈ its, (c, it) ∉ T) →
+    claimedPrefix T c its = its := by
+  induction its with
+  | nil => intro T _ _; rfl
+  | cons x rest ih =>
+    intro T hnd hfree
+    have hx : T.contains (c, x) = false := by
+      cases h : T.contains (c, x) with
+      | false => rfl
+      | true => exact absurd (List.contains_iff_mem.1 h) (hfree x List.mem_cons_self)
+    simp only [claimedPrefix, hx, Bool.false_eq_true, ↓reduceIte]
+    rw [ih _ (List.nodup_cons.1 hnd).2]
+    intro it hit hm
+    rcases List.mem_cons.1 hm with heq | hm
+    · cases heq; exact (List.nodup_cons.1 hnd).1 hit
+    · exact hfree it (List.mem_cons_of_mem _ hit) hm
+
 /-! ### list order inside one response: set and removal marker of the same key -/
 
 theorem delKeys_append (l₁ l₂ : List Str) : delKeys (l₁ ++ l₂) = delKeys l₁ ++ delKeys l₂ := by
@@ -215,5 +233,159 @@ theorem delKeys_pair_swap (k : Str) (hk : unmarked k = true) :
     delKeys [k, markForRemoval k] = delKeys [markForRemoval k, k] := by
   have h1 : (isMarked k).2 = false := by simpa [unmarked] using hk
   simp [delKeys, List.filterMap_cons, isMarked_mark, h1]
+
+
+theorem filter_pair_swap {α : Type} (P : α → Bool) (l : List α) (x m : α) (hx : P x = false) :
+    (l ++ [x, m]).filter P = (l ++ [m, x]).filter P := by
+  simp only [List.filter_append]
+  congr 1
+  cases hm : P m <;> simp [List.filter_cons, hx, hm]
+
+theorem delKeys_map_swap {α : Type} (g : α → Str) (l : List α) (x m : α) (hx : (isMarked (g x)).2 = false) :
+    delKeys ((l ++ [x, m]).map g) = delKeys ((l ++ [m, x]).map g) := by
+  simp only [List.map_append, delKeys_append]
+  congr 1
+  simp only [List.map_cons, List.map_nil, delKeys, List.filterMap_cons, List.filterMap_nil]
+  cases hgm : isMarked (g m) with
+  | mk km bm =>
+    cases hgx : isMarked (g x) with
+    | mk kx bx =>
+      rw [hgx] at hx
+      simp only at hx
+      subst hx
+      cases bm <;> simp
+
+/-- `adjustEnv` sees its list only through these three readings -/
+def envData' (q : Quirks) (st : State) (del : List Str) (add : List KeyValue)
+    (marked : List Str → List KeyValue) : State :=
+  let mod := add.map (·.key)
+  let reply1 := st.reply.env.filter fun e => !del.contains e.key
+  let view1 := st.view.env.filter fun s => !del.contains (envKey s) && !mod.contains (envKey s)
+  let lone := marked mod
+  let lone := lone.foldr (fun e acc => if acc.any (fun e' => e'.key = e.key) then acc else e :: acc) []
+  let lone := if q.envDevNoMarker then [] else lone
+  { st with reply := { st.reply with env := reply1 ++ add ++ lone },
+            view := { st.view with env := view1 ++ add.map KeyValue.toOCI } }
+
+theorem envData_eq (q : Quirks) (st : State) (es : List KeyValue) :
+    envData q st es = envData' q st (delKeys (es.map (·.key))) (es.filter fun e => !(isMarked e.key).2)
+      (fun mod => es.filter fun e => (isMarked e.key).2 && !mod.contains (clearMarker e.key)) := rfl
+
+theorem env_swap (q : Quirks) (es : List KeyValue) (x m : KeyValue) (hx : (isMarked x.key).2 = false)
+    (hm : (isMarked m.key).2 = true) :
+    envSets (es ++ [x, m]) = envSets (es ++ [m, x]) ∧
+    (∀ st, envClears st (es ++ [x, m]) = envClears st (es ++ [m, x])) ∧
+    (∀ st, envData q st (es ++ [x, m]) = envData q st (es ++ [m, x])) := by
+  have hP : ∀ (P : KeyValue → Bool), P x = false → (es ++ [x, m]).filter P = (es ++ [m, x]).filter P :=
+    fun P h => filter_pair_swap P es x m h
+  have hD := delKeys_map_swap (fun (e : KeyValue) => e.key) es x m hx
+  refine ⟨?_, ?_, ?_⟩
+  · unfold envSets
+    -- the unmarked entries come out in the same order: only `x` of the pair is unmarked
+    have : (es ++ [x, m]).filter (fun e => !(isMarked e.key).2) = (es ++ [m, x]).filter (fun e => !(isMarked e.key).2) := by
+      simp only [List.filter_append]
+      congr 1
+      simp [List.filter_cons, hx, hm]
+    rw [this]
+  · intro st; unfold envClears; rw [hD]
+  · intro st
+    rw [envData_eq, envData_eq, hD]
+    have h2 : (es ++ [x, m]).filter (fun e => !(isMarked e.key).2) = (es ++ [m, x]).filter (fun e => !(isMarked e.key).2) := by
+      simp only [List.filter_append]
+      congr 1
+      simp [List.filter_cons, hx, hm]
+    rw [h2]
+    congr 1
+    funext mod
+    exact hP _ (by simp [hx])
+
+def mountData' (st : State) (del : List Str) (add : List Mount) (marked : List Str → List Mount) : State :=
+  let mod := add.map (·.destination)
+  let reply1 := st.reply.mounts.filter fun m => !del.contains m.destination
+  let view1 := st.view.mounts.filter fun m => !del.contains m.destination && !mod.contains m.destination
+  let lone := marked mod
+  let lone := lone.foldr (fun m acc => if acc.any (fun m' => m'.destination = m.destination) then acc else m :: acc) []
+  { st with reply := { st.reply with mounts := reply1 ++ add ++ lone },
+            view := { st.view with mounts := view1 ++ add } }
+
+theorem mountData_eq (st : State) (ms : List Mount) :
+    mountData st ms = mountData' st (delKeys (ms.map (·.destination))) (ms.filter fun m => !(isMarked m.destination).2)
+      (fun mod => ms.filter fun m => (isMarked m.destination).2 && !mod.contains (clearMarker m.destination)) := rfl
+
+theorem mount_swap (ms : List Mount) (x m : Mount) (hx : (isMarked x.destination).2 = false)
+    (hm : (isMarked m.destination).2 = true) :
+    mountSets (ms ++ [x, m]) = mountSets (ms ++ [m, x]) ∧
+    (∀ st, mountClears st (ms ++ [x, m]) = mountClears st (ms ++ [m, x])) ∧
+    (∀ st, mountData st (ms ++ [x, m]) = mountData st (ms ++ [m, x])) := by
+  have hD := delKeys_map_swap (fun (e : Mount) => e.destination) ms x m hx
+  have h2 : (ms ++ [x, m]).filter (fun e => !(isMarked e.destination).2) = (ms ++ [m, x]).filter (fun e => !(isMarked e.destination).2) := by
+    simp only [List.filter_append]
+    congr 1
+    simp [List.filter_cons, hx, hm]
+  refine ⟨?_, ?_, ?_⟩
+  · unfold mountSets; rw [h2]
+  · intro st; unfold mountClears; rw [hD]
+  · intro st
+    rw [mountData_eq, mountData_eq, hD, h2]
+    congr 1
+    funext mod
+    exact filter_pair_swap _ ms x m (by simp [hx])
+
+def deviceData' (q : Quirks) (st : State) (del : List Str) (add : List Device) (marked : List Str → List Device) : State :=
+  let mod := add.map (·.path)
+  let reply1 := st.reply.devices.filter fun d => !del.contains d.path
+  let view1 := st.view.devices.filter fun d => !del.contains d.path && !mod.contains d.path
+  let lone := marked mod
+  let lone := lone.foldr (fun d acc => if acc.any (fun d' => d'.path = d.path) then acc else d :: acc) []
+  let lone := if q.envDevNoMarker then [] else lone
+  { st with reply := { st.reply with devices := reply1 ++ add ++ lone },
+            view := { st.view with devices := view1 ++ add } }
+
+theorem deviceData_eq (q : Quirks) (st : State) (ds : List Device) :
+    deviceData q st ds = deviceData' q st (delKeys (ds.map (·.path))) (ds.filter fun d => !(isMarked d.path).2)
+      (fun mod => ds.filter fun d => (isMarked d.path).2 && !mod.contains (clearMarker d.path)) := rfl
+
+theorem device_swap (q : Quirks) (ds : List Device) (x m : Device) (hx : (isMarked x.path).2 = false)
+    (hm : (isMarked m.path).2 = true) :
+    deviceSets (ds ++ [x, m]) = deviceSets (ds ++ [m, x]) ∧
+    (∀ st, deviceClears st (ds ++ [x, m]) = deviceClears st (ds ++ [m, x])) ∧
+    (∀ st, deviceData q st (ds ++ [x, m]) = deviceData q st (ds ++ [m, x])) := by
+  have hD := delKeys_map_swap (fun (e : Device) => e.path) ds x m hx
+  have h2 : (ds ++ [x, m]).filter (fun e => !(isMarked e.path).2) = (ds ++ [m, x]).filter (fun e => !(isMarked e.path).2) := by
+    simp only [List.filter_append]
+    congr 1
+    simp [List.filter_cons, hx, hm]
+  refine ⟨?_, ?_, ?_⟩
+  · unfold deviceSets; rw [h2]
+  · intro st; unfold deviceClears; rw [hD]
+  · intro st
+    rw [deviceData_eq, deviceData_eq, hD, h2]
+    congr 1
+    funext mod
+    exact filter_pair_swap _ ds x m (by simp [hx])
+
+/-- `result.adjust` reads the environment list of an adjustment only through `envSets`,
+    `envClears` and `envData` (likewise mounts and devices) -/
+theorem adjust_congr_env (q : Quirks) (st : State) (p : Plugin) (a : Adjustment) (es es' : List KeyValue)
+    (h1 : envSets es = envSets es') (h2 : ∀ st, envClears st es = envClears st es')
+    (h3 : ∀ st, envData q st es = envData q st es') :
+    adjust q st p (some { a with env := es }) = adjust q st p (some { a with env := es' }) := by
+  unfold adjust adjustSets adjustClears adjustData
+  simp only [h1, h2, h3]
+
+theorem adjust_congr_mounts (q : Quirks) (st : State) (p : Plugin) (a : Adjustment) (ms ms' : List Mount)
+    (h1 : mountSets ms = mountSets ms') (h2 : ∀ st, mountClears st ms = mountClears st ms')
+    (h3 : ∀ st, mountData st ms = mountData st ms') :
+    adjust q st p (some { a with mounts := ms }) = adjust q st p (some { a with mounts := ms' }) := by
+  unfold adjust adjustSets adjustClears adjustData
+  simp only [h1, h2, h3]
+
+theorem adjust_congr_devices (q : Quirks) (st : State) (p : Plugin) (a : Adjustment) (ds ds' : List Device)
+    (h1 : deviceSets ds = deviceSets ds') (h2 : ∀ st, deviceClears st ds = deviceClears st ds')
+    (h3 : ∀ st, deviceData q st ds = deviceData q st ds') :
+    adjust q st p (some { a with hasLinux := true, devices := ds }) =
+    adjust q st p (some { a with hasLinux := true, devices := ds' }) := by
+  unfold adjust adjustSets adjustClears adjustData
+  simp only [h1, h2, h3]
 
 end Nri.Builder
